@@ -269,6 +269,12 @@ var zzLitTemplates = []string{
 	"if (7001 == (7002 - 7003) + 7001) { t(1); } return 7002 + (7001 - 7003);",
 	"t(7001 - 7002 + 7003); return (7001 - 7002) != 7003;",
 	"return 7001 + 3 * (7002 - 7003);",
+	// constants of other types that print like the results of the arithmetic
+	"u = \"65536\"; return 7001 * 7002;",
+	"u = 65536.0; t(u); return 7001 * 7002;",
+	"u = \"-2\"; return 7001 - 7002;",
+	"u = \"70000\"; t(u); return 7001 + 7002;",
+	"u = [\"65600\", 65600.0, /65600/]; return (7001 + 7002) == 65600;",
 }
 
 // ZZ_C03_Literals: the same programs with integer literals that are
